@@ -526,7 +526,11 @@ class Process(object):
 
     def children(self, recursive=False):
         """Return a list of children pids."""
-        return [child.pid for child in get_children(self._worker, recursive)]
+        children = get_children(self._worker, recursive)
+        # remembered for send_signal_child(): they stay reachable when the
+        # process dies before they are signalled (they are re-parented then)
+        self._known_children = dict((child.pid, child) for child in children)
+        return [child.pid for child in children]
 
     def is_child(self, pid):
         """Return True is the given *pid* is a child of that process."""
@@ -538,12 +542,18 @@ class Process(object):
     @debuglog
     def send_signal_child(self, pid, signum):
         """Send signal *signum* to child *pid*."""
-        children = dict((child.pid, child)
-                        for child in get_children(self._worker))
         try:
-            children[pid].send_signal(signum)
-        except KeyError:
+            children = dict((child.pid, child)
+                            for child in get_children(self._worker))
+        except NoSuchProcess:
+            children = {}
+        child = children.get(pid)
+        if child is None:
+            # no longer a child if the process has died meanwhile
+            child = getattr(self, '_known_children', {}).get(pid)
+        if child is None:
             raise NoSuchProcess(pid)
+        child.send_signal(signum)
 
     @debuglog
     def send_signal_children(self, signum, recursive=False):
